@@ -8,4 +8,6 @@ mkdir -p "$(dirname "$rep")" "$out"
 cfg=$(mktemp)
 (cat "$here/tie/translate.cfg"; grep -h -E '^def [A-Za-z_0-9]+' "$here"/lean/ImapVerif/Grammar/*.lean | awk '{print "model_def Grammar." $2}') > "$cfg"
 "$here/harness/target/release/vh-translate" "${VERIF_PARSER_SRC:-/repo/imap-proto/src/parser}" "$cfg" "$out/Parser.lean" "$out/Tie.lean" "$rep"
+src=${VERIF_PARSER_SRC:-/repo/imap-proto/src/parser}
+"$here/harness/target/release/vh-translate" --own "$src/../types.rs" "$src/../types/acls.rs" "$cfg" "$out/Owned.lean" "$(dirname "$rep")/own_report.json"
 rm -f "$cfg"
